@@ -5,7 +5,7 @@
 use flute::core::alc as falc;
 use flute::verif_hooks as hk;
 use harness_core::guarded;
-use std::collections::{BTreeMap, HashMap};
+use std::collections::{BTreeMap, HashMap, VecDeque};
 
 pub struct Info {
     pub tsi: u64,
@@ -58,6 +58,8 @@ pub fn parse_info(bytes: &[u8]) -> Result<Info, ()> {
 }
 
 pub struct Inst {
+    /// the FTI of the first packet of this reception (`FdtReceiver::first_fti`)
+    first_fti: (u8, u16, u32, u64),
     e: u64,
     l: u64,
     quad: (u64, u64, u64, u64),
@@ -77,12 +79,22 @@ pub struct Completed {
     pub id: u32,
     pub expires_us: Option<i128>,
     pub tois: Vec<u128>,
+    /// clock offsets observed in the EXT_TIME of the packets of this reception
+    pub offsets: Vec<i128>,
 }
 
+/// The receptions follow the life of the entries of `fdt_receivers` (one GENERATION per entry): an
+/// entry ends when it completes (whatever the outcome), when a packet contradicts its FTI, or when
+/// a cleanup finds it stale; the next packet with that instance id starts a new reception.
 #[derive(Default)]
 pub struct Shadow {
     pub inst: HashMap<u32, Inst>,
     pub completed: Vec<Completed>,
+    /// configuration: `object_receive_once`, an object time-out is configured
+    pub once: bool,
+    pub obj_to: bool,
+    /// ids of the (at most 10) instances the receiver holds as current (told by `accepted`)
+    pub current: VecDeque<u32>,
 }
 
 impl Shadow {
@@ -99,6 +111,20 @@ impl Shadow {
             Some(id) => id,
             None => return false,
         };
+        // repair 282dd8d: a packet contradicting the FTI of the reception in progress restarts it
+        if let (Some(inst), Some(f)) = (self.inst.get(&id), i.fti) {
+            if !inst.complete && inst.first_fti != f {
+                self.inst.remove(&id);
+            }
+        }
+        if self.once && self.current.contains(&id) {
+            return false;
+        }
+        // a completed reception has left `fdt_receivers` (moved to `fdt_current`, or dropped as
+        // failed / expired: repair 9bde117)
+        if matches!(self.inst.get(&id), Some(inst) if inst.complete) {
+            self.inst.remove(&id);
+        }
         if !self.inst.contains_key(&id) {
             let (_, e, b, l) = match i.fti {
                 Some(f) => f,
@@ -108,7 +134,7 @@ impl Shadow {
             let need = if e == 0 { 0 } else { (l + e as u64 - 1) / e as u64 };
             self.inst.insert(
                 id,
-                Inst { e: e as u64, l, quad, need, syms: BTreeMap::new(), complete: false, offsets: vec![], answer: None, utf8: false, hook_panic: false, xml: vec![] },
+                Inst { first_fti: i.fti.unwrap(), e: e as u64, l, quad, need, syms: BTreeMap::new(), complete: false, offsets: vec![], answer: None, utf8: false, hook_panic: false, xml: vec![] },
             );
         }
         let inst = self.inst.get_mut(&id).unwrap();
@@ -148,11 +174,36 @@ impl Shadow {
                     .as_ref()
                     .map(|fs| fs.iter().filter_map(|f| f.toi.trim().parse::<u128>().ok()).collect())
                     .unwrap_or_default();
-                self.completed.push(Completed { id, expires_us, tois });
+                let offsets = inst.offsets.clone();
+                self.completed.push(Completed { id, expires_us, tois, offsets });
             }
             return true;
         }
         false
+    }
+
+    /// the call that completed instance `id` answered `obs`: does the receiver now hold it as current?
+    /// (`f<id>` is the `fdt_received` callback; it is skipped for a document that is not UTF-8)
+    pub fn completed_call(&mut self, id: u32, obs: &str) {
+        let utf8 = self.inst.get(&id).map(|i| i.utf8).unwrap_or(true);
+        let tag = format!("f{}", id);
+        if obs.starts_with("OK") && (!utf8 || obs.split(' ').any(|t| t == tag)) {
+            self.current.push_front(id);
+            self.current.truncate(10);
+        }
+    }
+
+    /// `cleanup` with the staleness `spec` of the op line (`0`, `1`, `T<tois>/F<ids>`)
+    pub fn cleanup(&mut self, spec: &str) {
+        if !self.obj_to {
+            return;
+        }
+        let ids: Option<Vec<u32>> = match spec {
+            "0" => Some(vec![]),
+            "1" => None,
+            _ => Some(spec.split("/F").nth(1).map(|l| l.split(',').filter_map(|x| x.parse().ok()).collect()).unwrap_or_default()),
+        };
+        self.inst.retain(|id, inst| inst.complete || !ids.as_ref().map(|l| l.contains(id)).unwrap_or(true));
     }
 
     /// C19 oracle: may a writer be created for `toi` at receiver time `now` (expiry check enabled)?
@@ -175,7 +226,7 @@ impl Shadow {
                     continue;
                 }
             };
-            let offs = &self.inst[&c.id].offsets;
+            let offs = &c.offsets;
             if offs.is_empty() {
                 if now <= exp + band {
                     return Ok(());
